@@ -123,6 +123,14 @@ class Evaluator:
         pat = pat.strip()
         if pat in ("_",):
             return True
+        if isinstance(v, tuple) and v and v[0] == "variant":
+            # an enum value known by its variant: the pattern names a variant (path, possibly with sub-patterns) or binds
+            head = pat.split("(")[0].split("{")[0].strip()
+            if "::" in head or head[:1].isupper():
+                return head.rsplit("::", 1)[-1] == str(v[1]).rsplit("::", 1)[-1]
+            if head.isidentifier():
+                return True
+            raise Undecided(f"pattern {pat} on {v!r}")
         if pat.startswith("Some("):
             return isinstance(v, tuple) and v and v[0] == "some"
         if pat == "None" or pat.endswith("::None"):
